@@ -13,9 +13,11 @@ VARIABLE blocks
 R == <<"r", 0>>
 Wrappers == { <<"a", <<R>>>>, <<"ins", <<R>>>>, <<"del", <<R>>>>, <<"isdt", <<R>>>> }
 Refs == { <<"fn", 0>>, <<"cm", 0>> }
+RX == <<"rx", 0>>      \* one run of two words, the first ending in a non-ASCII letter ("zq3007e' zy3007x")
+RN == <<"rn", 0>>      \* a 16-digit number (digits only)
 
 ParaShapes ==
-    { <<R>>, <<R, R>> }
+    { <<R>>, <<R, R>>, <<RX>>, <<RX, R>>, <<R, RX>>, <<RN>> }
     \cup { <<R, x, R>> : x \in { <<"tab">>, <<"br">> } }
     \cup { <<x>> : x \in Wrappers }
     \cup { <<R, x>> : x \in Wrappers \cup Refs }
@@ -26,11 +28,14 @@ ParaShapes ==
 P1 == <<"p", <<R>>>>
 SmallTbl == <<"tbl", << << <<P1>> >> >>>>               \* 1 x 1
 
-Cells == { <<P1>>, <<P1, P1>>, <<>>, <<SmallTbl>> }    \* plain, two paragraphs, empty, nested table
+PN == <<"p", <<RN>>>>
+PX == <<"p", <<RX, R>>>>
+Cells == { <<P1>>, <<P1, P1>>, <<>>, <<SmallTbl>>, <<PN>>, <<PX>> }   \* plain, two paragraphs, empty, nested table, number, accented
 Grid(r, c, special, at) ==                               \* all cells plain except cell number `at`
     <<"tbl", [i \in 1..r |-> [j \in 1..c |-> IF (i - 1) * c + j = at THEN special ELSE <<P1>>]]>>
 TableShapes ==
     { Grid(r, c, s, at) : r \in 1..2, c \in 1..2, s \in Cells, at \in 1..4 }
+    \cup { Grid(2, 3, <<>>, 2) }       \* 2 x 3, the middle cell of the first row empty (writers may render it as a merge)
 
 ListShapes ==
     { <<"ul", << <<P1>> >>>>, <<"ul", << <<P1>>, <<P1>> >>>>,
